@@ -46,15 +46,22 @@ def coords(tier):
 def bounds(tier):
     c = coords(tier)
     return dict(coordinates=c, features_A=len(c) * (len(c) + 1) // 2, positions_B=6,
-                forms=FORMS, strands=[None, "+"], featuretypes=[None, "exon", ["exon", "gene"]])
+                forms=FORMS, strands=[None, "+", ". (databases B and G)"], databases=["A", "B (hostile seqid)", "T (transform)", "G (GTF importer)"], featuretypes=[None, "exon", ["exon", "gene"]])
 
 
 FORMS = ["kwargs", "tuple", "string", "Feature", "noseqid", "start_only", "end_only",
          "all_features", "all_features_str", "features_of_type", "children", "parents", "interleaved"]
 
 
+# first / second sequence name per database; B and G use names with the characters real assemblies have ('.', '-', '|', '_')
+SEQS = {"A": ("c1", "c2"), "T": ("c1", "c2"), "B": ("NC_000913.3-x|y", "c2"), "G": ("scaffold-12.1", "c2")}
+
+
 def build(kind, tier, wd):
     """-> (db, list of feature dicts)"""
+    if kind == "G":
+        return build_gtf(wd)
+    S1, S2 = SEQS[kind]
     if kind in ("A", "T"):
         cs = coords(tier)
     else:
@@ -64,11 +71,11 @@ def build(kind, tier, wd):
     for a in cs:
         for b in cs:
             if a <= b:
-                feats.append(dict(id="f%d" % i, seqid="c1", start=a, end=b, strand="+-."[i % 3], ft=("gene", "exon")[i % 2]))
+                feats.append(dict(id="f%d" % i, seqid=S1, start=a, end=b, strand="+-."[i % 3], ft=("gene", "exon")[i % 2]))
                 i += 1
     for j, (a, b) in enumerate([(cs[0], cs[0]), (cs[0], cs[-1]), (cs[1], cs[2]), (cs[2], cs[-2]), (cs[-1], cs[-1])]):
-        feats.append(dict(id="g%d" % j, seqid="c2", start=a, end=b, strand="+-."[j % 3], ft=("gene", "exon")[j % 2]))
-    lines = ["c1\ts\troot\t1\t%d\t.\t+\t.\tID=R" % cs[-1]]
+        feats.append(dict(id="g%d" % j, seqid=S2, start=a, end=b, strand="+-."[j % 3], ft=("gene", "exon")[j % 2]))
+    lines = ["%s\ts\troot\t1\t%d\t.\t+\t.\tID=R" % (S1, cs[-1])]
     for f in feats:
         if kind == "T":
             # database T: every feature is parsed at a placeholder position and moved to its real
@@ -76,7 +83,7 @@ def build(kind, tier, wd):
             lines.append("%s\ts\t%s\t1\t1\t.\t%s\t.\tID=%s;Parent=R;rs=%d;re=%d" % (f["seqid"], f["ft"], f["strand"], f["id"], f["start"], f["end"]))
         else:
             lines.append("%s\ts\t%s\t%d\t%d\t.\t%s\t.\tID=%s;Parent=R" % (f["seqid"], f["ft"], f["start"], f["end"], f["strand"], f["id"]))
-    lines.append("c1\ts\tleaf\t1\t1\t.\t+\t.\tID=L;Parent=%s" % ",".join(f["id"] for f in feats))
+    lines.append("%s\ts\tleaf\t1\t1\t.\t+\t.\tID=L;Parent=%s" % (S1, ",".join(f["id"] for f in feats)))
     path = dbutil.write_text(wd, "in%s.gff" % kind, "\n".join(lines) + "\n")
 
     def move(f):
@@ -86,6 +93,27 @@ def build(kind, tier, wd):
 
     kw = dict(transform=move) if kind == "T" else {}
     db = gffutils.create_db(path, os.path.join(wd, "db%s.sqlite" % kind), verbose=False, force=True, **kw)
+    return db, feats, cs
+
+
+def build_gtf(wd):
+    """Database G: the intervals of B written as GTF and imported by the GTF importer (keys from an ID attribute, no inference)."""
+    S1, S2 = SEQS["G"]
+    cs = list(range(1, 7))
+    feats, i = [], 0
+    for a in cs:
+        for b in cs:
+            if a <= b:
+                feats.append(dict(id="f%d" % i, seqid=S1, start=a, end=b, strand="+-."[i % 3], ft=("gene", "exon")[i % 2]))
+                i += 1
+    for j, (a, b) in enumerate([(cs[0], cs[0]), (cs[0], cs[-1]), (cs[1], cs[2]), (cs[2], cs[-2]), (cs[-1], cs[-1])]):
+        feats.append(dict(id="g%d" % j, seqid=S2, start=a, end=b, strand="+-."[j % 3], ft=("gene", "exon")[j % 2]))
+    lines = ['%s\ts\t%s\t%d\t%d\t.\t%s\t.\tgene_id "G"; transcript_id "T"; ID "%s";' % (f["seqid"], f["ft"], f["start"], f["end"], f["strand"], f["id"])
+             for f in feats]
+    path = dbutil.write_text(wd, "inG.gtf", "\n".join(lines) + "\n")
+    db = gffutils.create_db(path, os.path.join(wd, "dbG.sqlite"), verbose=False, force=True, id_spec="ID",
+                            disable_infer_genes=True, disable_infer_transcripts=True)
+    assert db.dialect["fmt"] == "gtf"
     return db, feats, cs
 
 
@@ -99,6 +127,8 @@ def shards(tier):
     for form in ("kwargs", "all_features", "children"):
         for i in range(n):
             out.append(("T", form, i))
+    for form in ("kwargs", "tuple", "string", "Feature", "noseqid", "start_only", "end_only", "all_features", "all_features_str", "features_of_type"):
+        out.append(("G", form, None))
     return out
 
 
@@ -134,65 +164,71 @@ def body(ch, ctx):
         s = ch.choose("start", cs)
     e = ch.choose("end", [c for c in cs if c >= s])
     cw = ch.flag("completely_within")
-    strand = ch.choose("strand", (None, "+"))
+    strand = ch.choose("strand", (None, "+") if kind in ("A", "T") else (None, "+", "."))
+    S1, S2 = SEQS[kind]
     ft = ch.choose("featuretype", (None, "exon", ("exon", "gene")))
     sig = dict(form=form, completely_within=cw, end_at_or_beyond_2_29=e >= P29, start_at_or_beyond_2_29=s >= P29)
-    lim_t, lim_s = ("c1", s, e), "c1:%d-%d" % (s, e)
+    lim_t, lim_s = (S1, s, e), "%s:%d-%d" % (S1, s, e)
     exact = True
     must = may = None
     if form == "kwargs":
-        got = db.region(seqid="c1", start=s, end=e, completely_within=cw, strand=strand, featuretype=ft)
-        exp = brute(feats, "c1", s, e, cw, strand, ft)
+        got = db.region(seqid=S1, start=s, end=e, completely_within=cw, strand=strand, featuretype=ft)
+        exp = brute(feats, S1, s, e, cw, strand, ft)
     elif form == "tuple":
         got = db.region(region=lim_t, completely_within=cw, strand=strand, featuretype=ft)
-        exp = brute(feats, "c1", s, e, cw, strand, ft)
+        exp = brute(feats, S1, s, e, cw, strand, ft)
     elif form == "string":
         got = db.region(region=lim_s, completely_within=cw, strand=strand, featuretype=ft)
-        exp = brute(feats, "c1", s, e, cw, strand, ft)
+        exp = brute(feats, S1, s, e, cw, strand, ft)
     elif form == "Feature":
-        q = Feature(seqid="c1", start=s, end=e, strand="-")
+        qs = "." if strand == "." else "-"
+        if ch.flag("query_feature_moved_after_construction"):
+            q = Feature(seqid=S1, start=cs[0], end=cs[0], strand=qs)       # e.g. a fetched feature widened by a flank
+            q.start, q.end = s, e
+        else:
+            q = Feature(seqid=S1, start=s, end=e, strand=qs)
         got = db.region(region=q, completely_within=cw, featuretype=ft)
-        exp = brute(feats, "c1", s, e, cw, None, ft)
-        alt = brute(feats, "c1", s, e, cw, "-", ft)
+        exp = brute(feats, S1, s, e, cw, None, ft)
+        alt = brute(feats, S1, s, e, cw, qs, ft)
     elif form == "noseqid":
         got = db.region(start=s, end=e, completely_within=cw, strand=strand, featuretype=ft)
         exp = brute(feats, None, s, e, cw, strand, ft)
     elif form in ("start_only", "end_only"):
         exact = False
         if form == "start_only":
-            got = db.region(seqid="c1", start=s, completely_within=cw, strand=strand, featuretype=ft)
-            may = brute(feats, "c1", s, 10 ** 12, False, strand, ft)                  # not entirely left of s
+            got = db.region(seqid=S1, start=s, completely_within=cw, strand=strand, featuretype=ft)
+            may = brute(feats, S1, s, 10 ** 12, False, strand, ft)                  # not entirely left of s
             must = [x for x in may if (FE[kind, ctx.tier][x][0] > s if cw else FE[kind, ctx.tier][x][1] > s)]
         else:
-            got = db.region(seqid="c1", end=e, completely_within=cw, strand=strand, featuretype=ft)
-            may = brute(feats, "c1", -10 ** 12, e, False, strand, ft)
+            got = db.region(seqid=S1, end=e, completely_within=cw, strand=strand, featuretype=ft)
+            may = brute(feats, S1, -10 ** 12, e, False, strand, ft)
             must = [x for x in may if (FE[kind, ctx.tier][x][1] < e if cw else FE[kind, ctx.tier][x][0] < e)]
     elif form == "interleaved":
         # two region() results consumed in lock step on one FeatureDB object
-        other = [f.id for f in db.region(region=("c2", 1, cs[-1]))]
+        other = [f.id for f in db.region(region=(S2, 1, cs[-1]))]
         alone = [f.id for f in db.region(region=lim_t, completely_within=cw, strand=strand, featuretype=ft)]
         pairs = [(a.id, b.id) for a, b in zip(db.region(region=lim_t, completely_within=cw, strand=strand, featuretype=ft),
-                                              db.region(region=("c2", 1, cs[-1])))]
-        exp = brute(feats, "c1", s, e, cw, strand, ft)
+                                              db.region(region=(S2, 1, cs[-1])))]
+        exp = brute(feats, S1, s, e, cw, strand, ft)
         ctx.check(pairs == list(zip(alone, other)), "interleaved-region-results-differ", sig, start=s, end=e, got=pairs[:6],
                   expected=list(zip(alone, other))[:6])
         got = db.region(region=lim_t, completely_within=cw, strand=strand, featuretype=ft)
     elif form == "all_features":
         got = db.all_features(limit=lim_t, completely_within=cw, strand=strand, featuretype=ft)
-        exp = brute(feats, "c1", s, e, cw, strand, ft)
+        exp = brute(feats, S1, s, e, cw, strand, ft)
     elif form == "all_features_str":
         got = db.all_features(limit=lim_s, completely_within=cw, strand=strand, featuretype=ft)
-        exp = brute(feats, "c1", s, e, cw, strand, ft)
+        exp = brute(feats, S1, s, e, cw, strand, ft)
     elif form == "features_of_type":
         t = ft or ("gene", "exon")
         got = db.features_of_type(t, limit=lim_t, completely_within=cw, strand=strand)
-        exp = brute(feats, "c1", s, e, cw, strand, t)
+        exp = brute(feats, S1, s, e, cw, strand, t)
     elif form == "children":
         got = db.children("R", limit=lim_t if strand is None else lim_s, completely_within=cw, featuretype=ft)
-        exp = brute(feats, "c1", s, e, cw, None, ft)
+        exp = brute(feats, S1, s, e, cw, None, ft)
     elif form == "parents":
         got = db.parents("L", limit=lim_t if strand is None else lim_s, completely_within=cw, featuretype=ft)
-        exp = brute(feats, "c1", s, e, cw, None, ft)
+        exp = brute(feats, S1, s, e, cw, None, ft)
     got = [f.id for f in got if f.id not in ("R", "L")]
     ctx.sample(lambda: dict(db=kind, form=form, start=s, end=e, completely_within=cw, strand=strand, featuretype=ft, n_returned=len(got)))
     dup = len(got) != len(set(got))
